@@ -59,6 +59,8 @@ def check(model: Model, rep: Report, tier: str):
         h5(model, rep, cg)
     with rep.isolated():
         h6(model, rep, cg)
+    with rep.isolated():
+        h7(model, rep, cg, ef, keep=lambda f: "/structure/" in f.module.relpath.replace("\\", "/") or "/language/" in f.module.relpath.replace("\\", "/"))
     rep.analysed["call graph"] = dict(cg.res.stats)
 
 
@@ -90,6 +92,70 @@ def unique_identifier(model: Model, C: ClassInfo) -> Tuple[bool, str]:
             return True, n
         why = f"{post.qualname} does not increment {cname}.{counter} unconditionally"
     return False, why
+
+
+def h7(model: Model, rep: Report, cg: CallGraph, ef: Effects, rule: str = "C03.H7", keep=None):
+    """A value derived from state that can change later must not be computed once in a constructor and kept."""
+    rep.rule(rule, "no constructor (__init__ / __post_init__) stores on the object a value COMPUTED from locations that are written outside constructors (durations, "
+                   "links, graphs, registries -- the catalogue of H1): such a field is a memo that nothing invalidates, and an observer that reads it reports the state "
+                   "of construction time")
+    cat = catalogue(model, ef)
+    mutable: Dict[str, List[Write]] = {}
+    for w in cat:
+        if w.attr in BOOKKEEPING or w.attr.startswith("<param"):
+            continue
+        mutable.setdefault(w.attr, []).append(w)
+    n = 0
+    for c in model.all_classes():
+        for iname in ("__init__", "__post_init__"):
+            for f in c.methods.get(iname, []):
+                if keep is not None and not keep(f):
+                    continue
+                sn = f.self_name
+                stores = []
+                for x in ast.walk(f.node):
+                    if isinstance(x, (ast.Assign, ast.AnnAssign)) and x.value is not None:
+                        for t in (x.targets if isinstance(x, ast.Assign) else [x.target]):
+                            if isinstance(t, ast.Attribute) and isinstance(t.value, ast.Name) and t.value.id == sn:
+                                stores.append((t.attr, x.value, x))
+                    if isinstance(x, ast.Call) and ast.unparse(x.func).endswith("__setattr__") and len(x.args) >= 3 and isinstance(x.args[1], ast.Constant):
+                        stores.append((x.args[1].value, x.args[2], x))
+                for attr, val, stmt in stores:
+                    # functions the stored expression runs
+                    callees = []
+                    for cs in cg.call_sites(f):
+                        if any(cs.node is y for y in ast.walk(val)):
+                            callees.extend(cs.callees)
+                    def hits_of(fns) -> List[str]:
+                        reach_ = cg.reachable(fns)
+                        names_, detail_ = _reads_of(cg, reach_)
+                        return [a for a, ws in mutable.items() if a in names_ and any(_related(cl, w.owner) for _, cl in detail_[a] for w in ws)]
+                    # attribute reads whose receiver is not typed (a lambda parameter, an element of a list): the accessor is any property of that name --
+                    # counted only when EVERY property of that name in the package depends on mutable state (then the receiver's class does not matter)
+                    by_name: List[str] = []
+                    resolved_nodes = {id(cs.node) for cs in cg.call_sites(f)}
+                    for y in ast.walk(val):
+                        if isinstance(y, ast.Attribute) and isinstance(y.ctx, ast.Load) and id(y) not in resolved_nodes:
+                            cands = [k.properties[y.attr] for k in model.all_classes() if y.attr in k.properties and "abstractmethod" not in k.properties[y.attr].decorators]
+                            if cands and all(hits_of([g_]) for g_ in cands):
+                                by_name.append(y.attr)
+                                callees.extend(cands)
+                    if not callees:
+                        continue
+                    n += 1
+                    hits = hits_of(callees)
+                    # is the stored field read outside constructors?
+                    read_later = any(isinstance(y, ast.Attribute) and y.attr == attr and isinstance(y.ctx, ast.Load)
+                                     for k in c.mro() for gs in k.methods.values() for g in gs if g.name not in ("__init__", "__post_init__") for y in ast.walk(g.node)) or \
+                        any(isinstance(y, ast.Attribute) and y.attr == attr and isinstance(y.ctx, ast.Load) for k in c.mro() for g in k.properties.values() for y in ast.walk(g.node))
+                    bad = bool(hits) and read_later
+                    rep.check(not bad, rule, f"{c.name}.{attr}[computed in {iname}]", f"{f.module.relpath}:{stmt.lineno}",
+                              found=f"{ast.unparse(val)[:80]} reads {sorted(hits)[:6]} (changed later by {sorted({w.fn.qualname for a in hits for w in mutable[a]})[:3]})" if bad else
+                              f"{ast.unparse(val)[:80]}: depends on nothing that is written outside constructors" + ("" if read_later else " (field never read)"),
+                              required="computed when it is read, or from construction-time constants only",
+                              what=f"{c.name}.{attr} is computed once at construction from {sorted(hits)[:4]}, which change afterwards ({sorted({w.fn.qualname for a in hits for w in mutable[a]})[:2]}): "
+                                   "what is read from it later is the state of construction time", detail=f"frozen:{attr}")
+    rep.analysed[f"{rule} constructor stores with computed values"] = n
 
 
 def h6(model: Model, rep: Report, cg: CallGraph, keep=None, rule: str = "C03.H6"):
